@@ -137,3 +137,21 @@ Theorem C19_cached_target_reads_back : forall (H : bytes -> N) fx cfg now rp tsr
                        consume (fetch_sha256 H (ti_len ti) (ti_digest ti) chunks) = (d, true)).
 Proof. exact cached_target_reads_back. Qed.
 Print Assumptions C19_cached_target_reads_back.
+
+(* ... and a client whose targets base URL names the directory the cache stored it in finds it there, when its file
+   name is plain (Model/Url.v: Url::join + FilesystemTransport against Path::join; the complement of [url_plain] is
+   the known class url_encoded_target_name). *)
+From ToughV Require Export Model.Url.
+From ToughV Require Import Proofs.UrlP.
+Theorem C19_cached_target_served : forall (H : bytes -> N) fx cfg now rp tsrv n prefix outdir f w f' w' ti,
+  save_target H fx cfg now rp tsrv n prefix outdir f w = (Ok tt, f', w') ->
+  find_target n (rp_targets rp) = Some ti -> ti_len ti < u64max' ->
+  forallb (fun c => negb (is_empty c)) outdir = true ->
+  url_plain (if prefix then ti_hex ti ++ [46] ++ tn_resolved n else tn_resolved n) = true ->
+  exists d,
+    fs_fetch (fs_files f') outdir (if prefix then ti_hex ti ++ [46] ++ tn_resolved n else tn_resolved n) = FsFound d
+    /\ H d = ti_digest ti /\ N.of_nat (length d) <= ti_len ti
+    /\ (exists s, tlookup (if r_cs (rp_root rp) then Some (ti_digest ti) else None, tn_resolved n) tsrv = TStream s
+                  /\ d = chunk_bytes s).
+Proof. exact cached_target_served. Qed.
+Print Assumptions C19_cached_target_served.
